@@ -10,13 +10,14 @@ import Glom.Generated.C06Facts
   implementation reported; the Python-level observations (outcome equal to the fresh-interpreter
   outcome, inputs unchanged) are part of the property verdict.
 
-  case: {"classes":[{"name":n,"mro":[n…]}…],
+  case: {"classes":[{"name":n,"mro":[n…],"dict":b}…],
          "ops":[ {"op":"from_text","text":t,"impl_path":[[op,arg|null]…],"impl_sizes":[nTrue,nFalse]}
                | {"op":"fill","prefix":p,"n":k,"impl_sizes":[…]}
                | {"op":"set_star","v":b}
                | {"op":"glom","reg":r,"same_as_fresh":b|null,"same_as_first":b,"inputs_unchanged":b,
                   "same_as_rebuilt":b,"same_as_expected":b,"same_as_fresh_registry":b,"spec_graph_unchanged":b,"scope_unchanged":b,
                   "impl_lookups":[[type,op,tag]…],
+                  "impl_star":[[type,"kg"|"it"|"none"|"log",[[op,tag]…]]…],     (a wildcard call: per visited item)
                   "vars":{"key":k,"base":[[n,v]…],"defaults":[[n,v]…],"ops":[["w",n,v]|["r",n]…],"impl_reads":[v|null…]},
                   "impl_sizes":[…]}
                | {"op":"register","reg":r,"cls":n,"kw":[[op,tag]…]}      (no "cls": an unrelated fresh class) … ]}
@@ -86,6 +87,29 @@ def replayLookups (reg : TReg) : HCache Tag → List (String × String × String
     let (ag, ok, hc'') := replayLookups reg hc' rest
     (ag && h == some tag, ok && reg.compute (ty, op) == some tag, hc'')
 
+/-- what the implementation showed of the expansion of one visited item: its exact type, how its
+    children were reached as far as the result shows it ("kg" keys+get, "it" iterate, "none", or
+    "log" when only the log of tagged handlers is available), and the tagged handlers that ran -/
+structure StarObs where
+  ty : String
+  mode : String
+  tags : List (String × String)
+
+def starObsOfJson (j : Json) : List StarObs :=
+  match j with
+  | .arr a => a.toList.filterMap (fun e => match e with
+      | .arr #[.str ty, .str mode, tags] => some { ty := ty, mode := mode, tags := pairsOfJson tags }
+      | _ => none)
+  | _ => []
+
+def starMatches (o : StarObs) (u : StarUse Tag) : Bool :=
+  (o.mode == "log" || o.mode == u.mode) && o.tags == u.tagged
+
+def starAllMatch : List StarObs → List (StarUse Tag) → Bool
+  | [], [] => true
+  | o :: os, u :: us => starMatches o u && starAllMatch os us
+  | _, _ => false
+
 def vopsOfJson (j : Json) : List (VOp String) :=
   match j with
   | .arr a => a.toList.filterMap (fun e => match e with
@@ -142,6 +166,21 @@ def stepOp (maxCache : Nat) (a : Acc) (j : Json) : Except String Acc := do
       | _ => []
     let (lkAgree, lkOk, hc') := replayLookups (a.regs rg) (a.hcs rg) lookups
     let a := { a with hcs := setAt a.hcs rg hc', agree := a.agree && lkAgree }
+    -- a wildcard call: the lookups of `_extend_children` for the visited items, as the strategy
+    -- `starStrategy` run against the memo of this registry (agree) and without any memo (holds)
+    let (a, starOk) : Acc × Bool := match j.getObjVal? "impl_star" with
+      | .ok sj =>
+        let obs : List StarObs := starObsOfJson sj
+        let tys : List String := obs.map StarObs.ty
+        let w : World PathRepr Tag TReg := { pc := a.pc, pathStar := a.star, reg := a.regs, hc := a.hcs }
+        let res := runCached parseText TReg.compute maxCache (starStrategy rg tys) (starFuel tys) w []
+        let cached : List (StarUse Tag) := res.1.getD []
+        let pure : List (StarUse Tag) := (runPure parseText TReg.compute (starStrategy rg tys) a.star a.regs
+          (starFuel tys) []).getD []
+        ({ a with hcs := res.2.hc,
+                  agree := a.agree && starAllMatch obs cached && pure == refStar (a.regs rg).compute tys },
+         starAllMatch obs pure)
+      | .error _ => (a, true)
     -- a spec holding `Vars(...)`: its reads through the heap model / the value-level reference
     let (a, varsOk) := match j.getObjVal? "vars" with
       | .ok v =>
@@ -155,7 +194,7 @@ def stepOp (maxCache : Nat) (a : Acc) (j : Json) : Except String Acc := do
         ({ a with vheaps := (key, heap') :: a.vheaps.filter (·.1 != key), agree := a.agree && reads == impl },
          impl == refVars base defaults ops)
       | .error _ => (a, true)
-    let ok := fresh && first && unch && rebuilt && freshReg && specUnch && scopeUnch && lkOk && varsOk && expected
+    let ok := fresh && first && unch && rebuilt && freshReg && specUnch && scopeUnch && lkOk && starOk && varsOk && expected
     -- keep the model's cache in step with the texts this call parsed (observed as new cache keys)
     let newKeys : List (Bool × String) := match j.getObjVal? "impl_new_keys" with
       | .ok (.arr ks) => ks.toList.filterMap (fun e => match e with
@@ -170,6 +209,7 @@ def stepOp (maxCache : Nat) (a : Acc) (j : Json) : Except String Acc := do
          else if !specUnch then s!"an object of the spec's object graph (or a mapping handed to it) changed by being evaluated (op {a.nOps})"
          else if !scopeUnch then s!"the caller's scope mapping / path list changed (op {a.nOps})"
          else if !varsOk then s!"the reads of a spec holding Vars(...) differ from those of a fresh variable holder (op {a.nOps})"
+         else if !starOk then s!"a '*' / '**' traversal reached the children of an item by other handlers than the uncached lookups under the registrations in force give (op {a.nOps})"
          else if !lkOk then s!"a handler differs from the uncached lookup under the registrations in force (op {a.nOps})"
          else if !freshReg then s!"outcome differs from the same call in a freshly built registry with the same registrations (op {a.nOps})"
          else if !expected then s!"outcome of a fixed (target, spec) pair differs from its documented result (op {a.nOps})"
@@ -195,7 +235,14 @@ def run (j : Json) : Except String Json := do
         | .ok n, .ok (.arr m) => some (n, m.toList.filterMap (fun e => match e with | .str s => some s | _ => none))
         | _, _ => none)
     | _ => []
-  let reg0 : TReg := { mro := mro }
+  -- classes whose instances have no `__dict__`: no built-in `keys` handler
+  let nodefault : List (String × String) := match j.getObjVal? "classes" with
+    | .ok (.arr cs) => cs.toList.filterMap (fun c =>
+        match c.getObjValAs? String "name", c.getObjValAs? Bool "dict" with
+        | .ok n, .ok false => some (n, "keys")
+        | _, _ => none)
+    | _ => []
+  let reg0 : TReg := { mro := mro, nodefault := nodefault }
   let a ← ops.foldlM (stepOp Generated.maxCache) { regs := fun _ => reg0 }
   return Json.mkObj [("agree", a.agree), ("holds", a.holds), ("why", a.why),
     ("model", Json.mkObj [("sizes", Json.arr #[toJson (a.pc.get true).length, toJson (a.pc.get false).length]),
